@@ -22,12 +22,22 @@ Definition bind {A B} (r : res A) (f : A -> res B) : res B :=
 Notation "'let*' x ':=' r 'in' k" := (bind r (fun x => k)) (at level 200, x pattern, r at level 100, k at level 200).
 Definition is_ok {A} (r : res A) : bool := match r with Ok _ => true | Err _ => false end.
 
-Definition code (c : ascii) : Z := Z.of_N (N_of_ascii c).
+(* code point of a byte (= Z.of_N (N_of_ascii c), see XsdBaseProofs.code_N; written out for speed) *)
+Definition code (c : ascii) : Z :=
+  match c with
+  | Ascii b0 b1 b2 b3 b4 b5 b6 b7 =>
+    (if b0 then 1 else 0) + (if b1 then 2 else 0) + (if b2 then 4 else 0) + (if b3 then 8 else 0)
+    + (if b4 then 16 else 0) + (if b5 then 32 else 0) + (if b6 then 64 else 0) + (if b7 then 128 else 0)
+  end.
 Definition chr (z : Z) : ascii := ascii_of_N (Z.to_N z).
 Definition ceq (a b : ascii) : bool := Ascii.eqb a b.
 Definition is_digit (c : ascii) : bool := (48 <=? code c) && (code c <=? 57).
 Definition dval (c : ascii) : Z := code c - 48.
-Definition dchar (d : Z) : ascii := chr (d + 48).
+Definition dchar (d : Z) : ascii :=      (* = chr (d + 48) *)
+  match d with
+  | 0 => "0" | 1 => "1" | 2 => "2" | 3 => "3" | 4 => "4" | 5 => "5" | 6 => "6" | 7 => "7" | 8 => "8" | 9 => "9"
+  | _ => chr (d + 48)
+  end%char.
 Definition is_sign (c : ascii) : bool := ceq c "+" || ceq c "-".
 Definition is_nil {A} (l : list A) : bool := match l with [] => true | _ => false end.
 
@@ -36,7 +46,8 @@ Definition is_nil {A} (l : list A) : bool := match l with [] => true | _ => fals
 Fixpoint digs (fuel : nat) (n : Z) (acc : str) : str :=
   match fuel with
   | O => acc
-  | S f => if n <? 10 then dchar n :: acc else digs f (n / 10) (dchar (n mod 10) :: acc)
+  | S f => if n <? 10 then dchar n :: acc
+           else let '(q, r) := Z.div_eucl n 10 in digs f q (dchar r :: acc)
   end.
 Definition str_nat (n : Z) : str := digs (S (Z.to_nat (Z.log2 n))) n [].
 (* str(z) of a Python int *)
